@@ -3,6 +3,7 @@ package main
 import (
 	"fmt"
 	"reflect"
+	"strconv"
 	"strings"
 
 	structform "github.com/elastic/go-structform"
@@ -30,8 +31,12 @@ type uuState struct {
 	to *int64
 }
 
-func (s *uuState) OnInt(c gotype.UnfoldCtx, i int64) error   { *s.to = i; c.Done(); return nil }
-func (s *uuState) OnUint(c gotype.UnfoldCtx, u uint64) error { *s.to = int64(u) + 1000000; c.Done(); return nil }
+func (s *uuState) OnInt(c gotype.UnfoldCtx, i int64) error { *s.to = i; c.Done(); return nil }
+func (s *uuState) OnUint(c gotype.UnfoldCtx, u uint64) error {
+	*s.to = int64(u) + 1000000
+	c.Done()
+	return nil
+}
 
 // uuS keeps the string it is handed
 type uuS struct{ S string }
@@ -50,10 +55,19 @@ type uuKVState struct {
 func (s *uuKVState) OnObjectStart(c gotype.UnfoldCtx, l int, bt structform.BaseType) error {
 	return nil
 }
-func (s *uuKVState) OnKey(c gotype.UnfoldCtx, k string) error { s.to.Keys = append(s.to.Keys, k); return nil }
-func (s *uuKVState) OnInt(c gotype.UnfoldCtx, i int64) error   { s.to.Vals = append(s.to.Vals, i); return nil }
-func (s *uuKVState) OnUint(c gotype.UnfoldCtx, u uint64) error { s.to.Vals = append(s.to.Vals, int64(u)); return nil }
-func (s *uuKVState) OnObjectFinished(c gotype.UnfoldCtx) error  { c.Done(); return nil }
+func (s *uuKVState) OnKey(c gotype.UnfoldCtx, k string) error {
+	s.to.Keys = append(s.to.Keys, k)
+	return nil
+}
+func (s *uuKVState) OnInt(c gotype.UnfoldCtx, i int64) error {
+	s.to.Vals = append(s.to.Vals, i)
+	return nil
+}
+func (s *uuKVState) OnUint(c gotype.UnfoldCtx, u uint64) error {
+	s.to.Vals = append(s.to.Vals, int64(u))
+	return nil
+}
+func (s *uuKVState) OnObjectFinished(c gotype.UnfoldCtx) error { c.Done(); return nil }
 
 // uuP is unfolded through a PROCESSING unfolder whose temporary cell has the target's own type
 type uuP struct {
@@ -66,6 +80,157 @@ type uuOuter struct {
 	Tag string
 	In  uuP
 }
+
+// uuTree is processed, and its cell contains further uuTree values (nested use of one processing unfolder)
+type uuTree struct {
+	Name string
+	Kids []uuTree
+}
+
+type uuTreeCell struct {
+	Name string
+	Kids []uuTree
+}
+
+var uuOptTree = gotype.Unfolders(func(to *uuTree) (interface{}, func(*uuTree, interface{}) error) {
+	cell := &uuTreeCell{}
+	return cell, func(to *uuTree, c interface{}) error {
+		x := c.(*uuTreeCell)
+		to.Name, to.Kids = "("+x.Name+")", x.Kids
+		return nil
+	}
+})
+
+// uuExp implements gotype.Expander: its state logs every callback and finishes when the value it
+// was started for is complete
+type uuExp struct{ Log []string }
+
+func (e *uuExp) Expand() gotype.UnfoldState { return &uuExpState{to: e} }
+
+type uuExpState struct {
+	to    *uuExp
+	depth int
+}
+
+func (s *uuExpState) prim(c gotype.UnfoldCtx, t string) error {
+	s.to.Log = append(s.to.Log, t)
+	if s.depth == 0 {
+		c.Done()
+	}
+	return nil
+}
+func (s *uuExpState) OnNil(c gotype.UnfoldCtx) error { return s.prim(c, "nil") }
+func (s *uuExpState) OnBool(c gotype.UnfoldCtx, b bool) error {
+	return s.prim(c, fmt.Sprint("bool:", b))
+}
+func (s *uuExpState) OnString(c gotype.UnfoldCtx, v string) error { return s.prim(c, "str:"+v) }
+func (s *uuExpState) OnInt(c gotype.UnfoldCtx, i int64) error {
+	return s.prim(c, fmt.Sprint("int:", i))
+}
+func (s *uuExpState) OnUint(c gotype.UnfoldCtx, u uint64) error {
+	return s.prim(c, fmt.Sprint("uint:", u))
+}
+func (s *uuExpState) OnFloat(c gotype.UnfoldCtx, f float64) error {
+	return s.prim(c, fmt.Sprint("float:", f))
+}
+func (s *uuExpState) OnArrayStart(c gotype.UnfoldCtx, l int, bt structform.BaseType) error {
+	s.to.Log = append(s.to.Log, "[")
+	s.depth++
+	return nil
+}
+func (s *uuExpState) OnArrayFinished(c gotype.UnfoldCtx) error {
+	s.depth--
+	return s.prim(c, "]")
+}
+func (s *uuExpState) OnObjectStart(c gotype.UnfoldCtx, l int, bt structform.BaseType) error {
+	s.to.Log = append(s.to.Log, "{")
+	s.depth++
+	return nil
+}
+func (s *uuExpState) OnKey(c gotype.UnfoldCtx, k string) error {
+	s.to.Log = append(s.to.Log, "key:"+k)
+	return nil
+}
+func (s *uuExpState) OnObjectFinished(c gotype.UnfoldCtx) error {
+	s.depth--
+	return s.prim(c, "}")
+}
+
+// uuSeq is filled by a state machine that uses Cont (header state replaced by the element state)
+// and Push (a sub-state that consumes one nested object and reports how many members it had)
+type uuSeq struct {
+	Items   []int64
+	Skipped []int
+	Tail    string
+}
+
+type uuSeqHead struct {
+	gotype.BaseUnfoldState
+	to *uuSeq
+}
+
+func (s *uuSeqHead) OnArrayStart(c gotype.UnfoldCtx, l int, bt structform.BaseType) error {
+	c.Cont(&uuSeqElems{to: s.to})
+	return nil
+}
+
+type uuSeqElems struct {
+	gotype.BaseUnfoldState
+	to *uuSeq
+}
+
+func (s *uuSeqElems) OnInt(c gotype.UnfoldCtx, i int64) error {
+	s.to.Items = append(s.to.Items, i)
+	return nil
+}
+func (s *uuSeqElems) OnUint(c gotype.UnfoldCtx, u uint64) error {
+	s.to.Items = append(s.to.Items, int64(u))
+	return nil
+}
+func (s *uuSeqElems) OnString(c gotype.UnfoldCtx, v string) error { s.to.Tail += v; return nil }
+func (s *uuSeqElems) OnObjectStart(c gotype.UnfoldCtx, l int, bt structform.BaseType) error {
+	c.Push(&uuSeqSkip{to: s.to, depth: 1})
+	return nil
+}
+func (s *uuSeqElems) OnArrayFinished(c gotype.UnfoldCtx) error { c.Done(); return nil }
+
+type uuSeqSkip struct {
+	to       *uuSeq
+	depth, n int
+}
+
+func (s *uuSeqSkip) val(c gotype.UnfoldCtx) error                { return nil }
+func (s *uuSeqSkip) OnNil(c gotype.UnfoldCtx) error              { return nil }
+func (s *uuSeqSkip) OnBool(c gotype.UnfoldCtx, b bool) error     { return nil }
+func (s *uuSeqSkip) OnString(c gotype.UnfoldCtx, v string) error { return nil }
+func (s *uuSeqSkip) OnInt(c gotype.UnfoldCtx, i int64) error     { return nil }
+func (s *uuSeqSkip) OnUint(c gotype.UnfoldCtx, u uint64) error   { return nil }
+func (s *uuSeqSkip) OnFloat(c gotype.UnfoldCtx, f float64) error { return nil }
+func (s *uuSeqSkip) OnArrayStart(c gotype.UnfoldCtx, l int, bt structform.BaseType) error {
+	s.depth++
+	return nil
+}
+func (s *uuSeqSkip) OnArrayFinished(c gotype.UnfoldCtx) error { s.depth--; return nil }
+func (s *uuSeqSkip) OnObjectStart(c gotype.UnfoldCtx, l int, bt structform.BaseType) error {
+	s.depth++
+	return nil
+}
+func (s *uuSeqSkip) OnKey(c gotype.UnfoldCtx, k string) error {
+	if s.depth == 1 {
+		s.n++
+	}
+	return nil
+}
+func (s *uuSeqSkip) OnObjectFinished(c gotype.UnfoldCtx) error {
+	s.depth--
+	if s.depth == 0 {
+		s.to.Skipped = append(s.to.Skipped, s.n)
+		c.Done()
+	}
+	return nil
+}
+
+var uuOptSeq = gotype.Unfolders(func(x *uuSeq) gotype.UnfoldState { return &uuSeqHead{to: x} })
 
 var (
 	uuOptS  = gotype.Unfolders(func(to *uuS, s string) error { to.S = s; return nil })
@@ -158,10 +323,42 @@ func userunfRun(c int, seed uint64) string {
 				Ärger int
 				Über  string
 			}{n1, s1}
-		case 12, 13, 14, 15, 16:
+		case 18:
+			// a type implementing Expander, in every placement; its state sees every kind of event
+			type holder struct {
+				E uuExp
+				P *uuExp
+				L []uuExp
+				M map[string]uuExp
+				N int
+			}
+			val := []interface{}{nil, true, s1, int8(-3), uint16(7), float32(2.5), map[string]interface{}{"k": n1}, []int{}}
+			log := []string{"[", "nil", "bool:true", "str:" + s1, "int:-3", "uint:7", "float:2.5", "{", "key:k", fmt.Sprint("int:", n1), "}", "[", "]", "]"}
+			target = new(holder)
+			doc = map[string]interface{}{"e": val, "p": "x" + s2, "l": []interface{}{val, n2, map[string]interface{}{}}, "m": map[string]interface{}{"a": val}, "n": 5}
+			want = holder{E: uuExp{log}, P: &uuExp{[]string{"str:x" + s2}}, L: []uuExp{{log}, {[]string{fmt.Sprint("int:", n2)}}, {[]string{"{", "}"}}}, M: map[string]uuExp{"a": {log}}, N: 5}
+		case 19:
+			// a state machine that replaces itself (Cont) and delegates nested objects to a sub-state (Push)
+			target = new(struct {
+				A uuSeq
+				B []uuSeq
+				Z string
+			})
+			seq := []interface{}{n1, map[string]interface{}{"x": 1, "y": []interface{}{map[string]interface{}{"deep": 1}}, "z": nil}, uint8(9), "t" + s1, map[string]interface{}{}, n2}
+			ws := uuSeq{Items: []int64{int64(n1), 9, int64(n2)}, Skipped: []int{3, 0}, Tail: "t" + s1}
+			if hasMultiMap(reflect.ValueOf(seq)) {
+				// (member order of the skipped object does not matter: only counted)
+			}
+			doc = map[string]interface{}{"a": seq, "b": []interface{}{seq, []interface{}{}}, "z": "end"}
+			want = struct {
+				A uuSeq
+				B []uuSeq
+				Z string
+			}{ws, []uuSeq{ws, {}}, "end"}
+		case 12, 13, 14, 15, 16, 17:
 			// handled below: event streams delivered by reference, processing unfolders, histories
 		}
-		u, err := gotype.NewUnfolder(nil, uuOptT, uuOptI, uuOptS, uuOptKV, uuOptP, uuOptO)
+		u, err := gotype.NewUnfolder(nil, uuOptT, uuOptI, uuOptS, uuOptKV, uuOptP, uuOptO, uuOptTree, uuOptSeq)
 		if err != nil {
 			res = "U setuperr"
 			return
@@ -261,6 +458,28 @@ func userunfRun(c int, seed uint64) string {
 				return
 			}
 			doc = nil
+		case 17:
+			// a processing unfolder whose cell holds values of the processed type again
+			t := new(uuTree)
+			leaf := func(n string) map[string]interface{} { return map[string]interface{}{"name": n} }
+			target = t
+			want = uuTree{"(root)", []uuTree{
+				{"(a)", []uuTree{{"(a1)", nil}, {"(" + s1 + ")", nil}}},
+				{"(b)", nil},
+				{"(c)", []uuTree{{"(c1)", []uuTree{{"(" + s2 + ")", nil}}}}}}}
+			if err := u.SetTarget(t); err != nil {
+				res = "U setuperr"
+				return
+			}
+			doc = map[string]interface{}{"name": "root", "kids": []interface{}{
+				map[string]interface{}{"name": "a", "kids": []interface{}{leaf("a1"), leaf(s1)}},
+				leaf("b"),
+				map[string]interface{}{"name": "c", "kids": []interface{}{map[string]interface{}{"name": "c1", "kids": []interface{}{leaf(s2)}}}}}}
+			if err := gotype.Fold(doc, u); err != nil {
+				res = "U err"
+				return
+			}
+			doc = nil
 		default:
 			if err := u.SetTarget(target); err != nil {
 				res = "U setuperr"
@@ -273,7 +492,7 @@ func userunfRun(c int, seed uint64) string {
 		}
 		got := reflect.ValueOf(target).Elem().Interface()
 		if !reflect.DeepEqual(got, want) {
-			res = fmt.Sprintf("U diff got=%s want=%s", strings.ReplaceAll(fmt.Sprintf("%+v", derefAll(got)), " ", "_"), strings.ReplaceAll(fmt.Sprintf("%+v", derefAll(want)), " ", "_"))
+			res = fmt.Sprintf("U diff got=%s want=%s", asciiTok(fmt.Sprintf("%+v", derefAll(got))), asciiTok(fmt.Sprintf("%+v", derefAll(want))))
 			return
 		}
 		res = "U ok"
@@ -282,6 +501,12 @@ func userunfRun(c int, seed uint64) string {
 		return verdictTok(o, nil)
 	}
 	return res
+}
+
+// asciiTok renders arbitrary text as one printable ASCII token (no blanks, tabs, newlines, raw bytes)
+func asciiTok(s string) string {
+	q := strconv.QuoteToASCII(s)
+	return strings.ReplaceAll(q[1:len(q)-1], " ", "_")
 }
 
 // derefAll prints pointers by their pointee where that is safe (only for the diff message)
@@ -304,7 +529,7 @@ func derefAll(v interface{}) interface{} {
 	return v
 }
 
-const nUserunfCases = 17
+const nUserunfCases = 20
 
 func userunfCase(r *rng) string {
 	c := r.n(nUserunfCases)
